@@ -264,6 +264,12 @@ class Path:
                         e = self.env.get(v.name)
                         if e is not None and not contains(e, lambda x: x[0] == "sym"):
                             return e
+                        # an address computed from a local object (a member of an alloca'd struct): the object does not move
+                        # during the activation, so the address means the same in every segment
+                        if e is not None and d.op in ("getelementptr", "bitcast") and not contains(
+                                e, lambda x: x[0] == "sym" and not (self.fn.defs.get(x[1]) is not None and self.fn.defs[x[1]].op == "alloca")) \
+                                and not contains(e, lambda x: x[0] in ("ld", "call", "ald", "rmw")):
+                            return e
                     e = ("sym", v.name)
                     self.env[v.name] = e
                     return e
